@@ -232,6 +232,8 @@ impl Components {
 
         let ids: HashSet<_> = env_comps.iter().map(|c| c.id()).collect();
         for id in ids {
+            #[cfg(feature = "verif_hooks")]
+            crate::verif::emit(|| serde_json::json!({"ev": "CompleteId", "carrier": carrier, "id": id, "data": &self.data}));
             // Componentes para el sistema dado
             let components_for_id = env_comps.iter().filter(|c| c.has_id(id));
             // Componentes de producción del servicio
@@ -295,6 +297,8 @@ impl Components {
             .map(Energy::id)
             .collect();
         for id in ids {
+            #[cfg(feature = "verif_hooks")]
+            crate::verif::emit(|| serde_json::json!({"ev": "AuxId", "id": id, "data": &self.data}));
             let services_for_uses_with_id = self
                 .data
                 .iter()
@@ -388,6 +392,8 @@ impl Components {
 
     /// Ordena componentes según el id del sistema
     fn sort_by_id(&mut self) {
+        #[cfg(feature = "verif_hooks")]
+        crate::verif::emit(|| serde_json::json!({"ev": "Sort", "data": &self.data}));
         self.data.sort_by_key(|e| e.id());
     }
 }
